@@ -542,6 +542,12 @@ def run(prog, chk, tier):
     _iteronce.iterable_rules(prog, chk, "C09", _LIB)
     bec2.ecies_rules(prog, chk, "C09")
     bec2.block_rules(prog, chk, "C09", want={"ecc"})
+    # the ephemeral public point written into a block is k*G computed through the generator's lazily built table: the block is decryptable only if that
+    # table holds the affine doublings of G (C17) and is never visible half built or changed in place (C20) -- also after an interrupted first use
+    from rules import c17 as _c17, c20 as _c20
+
+    _c17.mul_rules(prog, chk, "C09")
+    _c20.publication_rules(prog, chk, "C09")
     published_key_rules(prog, chk, "C09")
     header_rules(prog, chk, "C09")
     validation_chain_rules(prog, chk, "C09")
